@@ -144,6 +144,35 @@ pub(crate) fn sample_request_as_json() -> String {
     .unwrap()
 }
 
+/// Is `offset..end_offset` a range of `input` that starts and ends
+/// between characters?
+fn span_in_input(input: &str, offset: usize, end_offset: usize) -> bool {
+    offset <= end_offset && input.is_char_boundary(offset) && input.is_char_boundary(end_offset)
+}
+
+/// The response to a request whose offsets are not a range of its
+/// input, e.g. because they were computed from another version of
+/// the text.
+fn invalid_span_response(
+    input: &str,
+    offset: usize,
+    end_offset: usize,
+    id: Option<RequestId>,
+) -> Response {
+    Response {
+        kind: ResponseKind::MalformedRequest {
+            message: format!(
+                "Invalid request: offset {} and end_offset {} are not a range of the input, which is {} bytes long.",
+                offset,
+                end_offset,
+                input.len()
+            ),
+        },
+        position: None,
+        id,
+    }
+}
+
 fn handle_load_request(
     id: Option<usize>,
     path: &Path,
@@ -152,6 +181,10 @@ fn handle_load_request(
     end_offset: usize,
     env: &mut Env,
 ) -> Response {
+    if !span_in_input(input, offset, end_offset) {
+        return invalid_span_response(input, offset, end_offset, id);
+    }
+
     let abs_path = to_abs_path(path);
 
     let vfs_path = env.vfs.insert(Rc::new(abs_path.clone()), input.to_owned());
@@ -673,6 +706,12 @@ fn handle_run_eval_request(
     session: &mut Session,
     id: Option<RequestId>,
 ) -> Response {
+    let offset = offset.unwrap_or(0);
+    let end_offset = end_offset.unwrap_or(input.len());
+    if !span_in_input(input, offset, end_offset) {
+        return invalid_span_response(input, offset, end_offset, id);
+    }
+
     let path = match path {
         Some(p) => to_abs_path(p),
         None => {
@@ -682,13 +721,8 @@ fn handle_run_eval_request(
     };
 
     let vfs_path = env.vfs.insert(Rc::new(path.clone()), input.to_owned());
-    let (items, errors) = parse_toplevel_items_from_span(
-        &vfs_path,
-        input,
-        &mut env.id_gen,
-        offset.unwrap_or(0),
-        end_offset.unwrap_or(input.len()),
-    );
+    let (items, errors) =
+        parse_toplevel_items_from_span(&vfs_path, input, &mut env.id_gen, offset, end_offset);
 
     if !errors.is_empty() {
         return as_error_response(errors, &env.vfs, &env.project_root);
